@@ -1,6 +1,11 @@
 pub mod c01;
 pub mod c02;
 pub mod c04;
+pub mod c03;
+pub mod c05;
+pub mod c06;
+pub mod c10;
+pub mod c11;
 pub mod c12;
 pub mod util;
 
@@ -13,6 +18,11 @@ pub fn check_fn(prop: &str) -> Option<crate::runner::CheckFn> {
         "C01" => c01::check,
         "C02" => c02::check,
         "C04" => c04::check,
+        "C03" => c03::check,
+        "C05" => c05::check,
+        "C06" => c06::check,
+        "C10" => c10::check,
+        "C11" => c11::check,
         "C12" => c12::check,
         _ => return None,
     })
@@ -23,6 +33,11 @@ pub fn generate(prop: &str, r: &mut Runner) {
         "C01" => c01::generate(r),
         "C02" => c02::generate(r),
         "C04" => c04::generate(r),
+        "C03" => c03::generate(r),
+        "C05" => c05::generate(r),
+        "C06" => c06::generate(r),
+        "C10" => c10::generate(r),
+        "C11" => c11::generate(r),
         "C12" => c12::generate(r),
         _ => {}
     }
@@ -33,6 +48,11 @@ pub fn rule(prop: &str) -> &'static str {
         "C01" => c01::RULE,
         "C02" => c02::RULE,
         "C04" => c04::RULE,
+        "C03" => c03::RULE,
+        "C05" => c05::RULE,
+        "C06" => c06::RULE,
+        "C10" => c10::RULE,
+        "C11" => c11::RULE,
         "C12" => c12::RULE,
         _ => "",
     }
